@@ -87,6 +87,15 @@ def impl(case):
             return [[1]]
         if st != "ok":
             return [[-2], [st]]
+        # a third of the exports each from objects holding the same network with uint32 / int64 cell indices (the missing
+        # value is then the largest value of the type, resp. -1): round-3 seed
+        sel = (sum(int(x) for x in a[4]) + tgt) % 3
+        if sel:
+            dt = np.dtype([None, np.uint32, np.int64][sel])
+            ids = np.asarray(flw.idxs_ds)
+            mvn = np.iinfo(dt).max if dt.kind == "u" else -1
+            new = np.array([mvn if x == flw._mv else int(x) for x in ids.tolist()], dtype=dt)
+            flw = pyflwdir.FlwdirRaster(idxs_ds=new, shape=flw.shape, ftype=flw.ftype)
         st, v = call_impl(flw.to_array, FMT[tgt])
         if not np.array_equal(before, data):
             return [[-4], ["input mutated"]]
